@@ -371,6 +371,11 @@ func H03f_subscribe_requalify() {
 		return
 	}
 	i := vrtChoice("which", len(p.Topics))
+	for j := 0; j < i; j++ {
+		// (a decoded packet may list one filter twice; AddTopic then re-qualifies the first occurrence - which
+		// occurrence is not the property's business)
+		vrtAssume(!vrtBytesEq(p.Topics[j], p.Topics[i]))
+	}
 	q := vrtByte("newqos")
 	vrtAssume(q <= 2)
 	vrtAssert("C03.requalify_ok", m.AddTopic(p.Topics[i], q) == nil)
